@@ -1,6 +1,7 @@
 (* Props/C15.v — IR text format round-trips (ppci/irutils/writer.py, reader.py, ir.py __str__), statements only.
    Model.IrText: print_text/print_tokens = Writer + __str__;  read_text = tokenize ; Reader.parse_* ; name
-   resolution.  tcfg_orig = the baseline code; tcfg_fixed = with fixes/C15-*.diff applied.
+   resolution.  tcfg_orig = the baseline code; tcfg_noru = baseline + fixes/C15-*.diff; tcfg_fixed = the current /repo (replace_use
+   of ir.py repaired) + fixes/C15-*.diff.
    text_roundtrip c tab m = read_text c (print_text c m); [tab] = the float table (bits, repr text) of m.
    norm c m = m without what the text does not carry (volatile flags, order of phi inputs).
    l_instr = __str__ of one instruction as layout tokens, toks = its tokens (white space dropped). *)
@@ -49,14 +50,23 @@ Print Assumptions c15_copyblob_refuted.
 Theorem c15_undefined_refuted : wf_modul w_undef = true /\ text_roundtrip tcfg_fixed [] w_undef = Internal KeyError.
 Proof. exact undefined_refuted. Qed.
 Print Assumptions c15_undefined_refuted.
+(* the replace_use defects of ppci/ir.py reached through Reader.define_value (baseline + C15 fixes = tcfg_noru);
+   repaired in /repo by the commits 2d6a9c1, e4350a7, 283ca09: with them the witnesses round-trip *)
 Theorem c15_forward_double_use_refuted :
-  wf_modul w_fwd_double = true /\ text_roundtrip tcfg_fixed [] w_fwd_double = Internal KeyError.
+  wf_modul w_fwd_double = true /\ text_roundtrip tcfg_noru [] w_fwd_double = Internal KeyError.
 Proof. exact fwd_double_use_refuted. Qed.
 Print Assumptions c15_forward_double_use_refuted.
+Theorem c15_forward_double_phi_refuted :
+  wf_modul w_fwd_phi = true /\ text_roundtrip tcfg_noru [] w_fwd_phi = Internal KeyError.
+Proof. exact fwd_double_phi_refuted. Qed.
+Print Assumptions c15_forward_double_phi_refuted.
 Theorem c15_forward_call_args_refuted :
-  exists m', wf_modul w_fwd_call = true /\ text_roundtrip tcfg_fixed [] w_fwd_call = Ok m' /\ wf_modul m' = false.
+  exists m', wf_modul w_fwd_call = true /\ text_roundtrip tcfg_noru [] w_fwd_call = Ok m' /\ wf_modul m' = false.
 Proof. exact fwd_call_args_refuted. Qed.
 Print Assumptions c15_forward_call_args_refuted.
+Theorem c15_replace_use_fixed : forall m, In m [w_fwd_double; w_fwd_phi; w_fwd_call] -> roundtrip_prop tcfg_fixed [] m.
+Proof. exact replace_use_roundtrip. Qed.
+Print Assumptions c15_replace_use_fixed.
 
 (* ---- unbounded: every printable instruction kind is parsed back from its own tokens (any configuration c,
         any loop bound N that covers the argument / phi lists) *)
@@ -119,6 +129,11 @@ Theorem c15_block_roundtrip : forall c N k rest,
   rblock_ok c N k -> parse_block c N (toks (l_block k) ++ rest) = Ok (k, rest).
 Proof. exact block_roundtrip. Qed.
 Print Assumptions c15_block_roundtrip.
+
+Theorem c15_function_roundtrip : forall c N f rest,
+  rfunc_ok c N f -> parse_declaration c N (toks (l_func f) ++ rest) = Ok (RFunc f, rest).
+Proof. exact func_roundtrip. Qed.
+Print Assumptions c15_function_roundtrip.
 
 (* ---- the repaired code, whole modules (bounded: the generated corpus): the text is lexed to the printed
         tokens, read back to the normal form of the module, and prints identically *)
